@@ -1,7 +1,7 @@
 \* MCCore.tla
 SPECIFICATION Spec
 CONSTANTS
-  NSlot = 2
+  NSlot = 3
   NMock = 1
   NSeq = 1
   NObj = 1
@@ -12,9 +12,9 @@ CONSTANTS
   MShapes = {5}
   MArgs = {0, 1}
   MTermIds = {2, 3}
-  MBoundIds = {2, 3, 5}
+  MBoundIds = {1, 2, 3, 5, 7}
   MFns = {1}
-  MaxCreate = 2
+  MaxCreate = 3
   MaxN = 3
   UseMove = FALSE
   UseDestroyMock = FALSE
